@@ -1678,6 +1678,9 @@ def alloc_arg_ok(t):
         return alloc_arg_ok(t[1])
     if k == "field" and t[2] in ("0", "1") and t[1][0] == "bin":
         return alloc_arg_ok(t[1][2]) and alloc_arg_ok(t[1][3])
+    if k == "field" and str(t[2]) == "0" and peel(t[1])[0] == "call" and (peel(t[1])[3] or {}).get("name") == "size_hint" and \
+            (peel(t[1])[3] or {}).get("trait") == "std::iter::Iterator":
+        return True         # the lower size hint of an in-memory iterator: how many items it is about to hand over, not a decoded number
     if k == "bin":
         return alloc_arg_ok(t[2]) and alloc_arg_ok(t[3])
     if k == "agg":
